@@ -74,6 +74,25 @@ func (c *FnCtx) callSiteClauses(frame *Frame, st *State, in ssa.Instruction, key
 			old.vars[n] = st.env[p]
 		}
 		env.old = old
+		// the actual arguments of the call: arg0, arg1, ... in SSA order (for a method call of a
+		// concrete type arg0 is the receiver; for an interface method call arg0 is the first argument)
+		var cc *ssa.CallCommon
+		switch y := in.(type) {
+		case *ssa.Call:
+			cc = &y.Call
+		case *ssa.Defer:
+			cc = &y.Call
+		case *ssa.Go:
+			cc = &y.Call
+		}
+		if cc != nil {
+			for i, av := range cc.Args {
+				n := fmt.Sprintf("arg%d", i)
+				if _, taken := env.vars[n]; !taken {
+					env.vars[n] = c.val(st, av)
+				}
+			}
+		}
 		if after {
 			// the results of the call: result (single) or result0, result1, ...
 			if res.K == KTuple {
